@@ -243,7 +243,17 @@ func runRetry(in retryIn) map[string]any {
 	} else {
 		for {
 			if in.CancelAt >= 0 && len(delivered) == in.CancelAt && streamsAtCancel < 0 {
-				// let the server finish sending what it will, then cancel
+				// let the call the client has already made reach the server (on a loaded machine the stream may not
+				// have been opened there yet: that opening is not a retry) and the server send what it will, then cancel
+				for w := 0; w < 500; w++ {
+					core.mu.Lock()
+					opened := core.streams
+					core.mu.Unlock()
+					if opened >= 1 {
+						break
+					}
+					time.Sleep(10 * time.Millisecond)
+				}
 				time.Sleep(30 * time.Millisecond)
 				core.mu.Lock()
 				streamsAtCancel = core.streams
